@@ -39,6 +39,23 @@ pub enum Route {
     Http,
     /// the message-queue (DMQ) consumer path: SequentialSignatureProcessor::process_signatures
     Queue,
+    /// the message-queue path as the aggregator wires it: the processor reads from
+    /// SignatureConsumerDmq over the real DmqConsumerClientDeduplicator (one per replay, so what
+    /// it has seen persists between submissions); the submission's label is the party the
+    /// message queue authenticated as the publisher
+    QueueDedup,
+}
+
+/// the network side of the message queue: what the harness publishes is what the next
+/// `consume_messages` returns
+#[derive(Default)]
+struct Inbox(tokio::sync::Mutex<Vec<(mithril_common::messages::RegisterSignatureMessageDmq, String)>>);
+
+#[async_trait::async_trait]
+impl mithril_dmq::DmqConsumerClient<mithril_common::messages::RegisterSignatureMessageDmq> for Inbox {
+    async fn consume_messages(&self) -> mithril_common::StdResult<Vec<(mithril_common::messages::RegisterSignatureMessageDmq, String)>> {
+        Ok(std::mem::take(&mut *self.0.lock().await))
+    }
 }
 
 #[derive(Clone, Copy, Debug, Serialize, Deserialize, PartialEq, Eq, Hash)]
@@ -221,6 +238,14 @@ fn replay_inner(scratch: &std::path::Path, start: Start, subs: &[Sub]) -> RunRes
             return RunResult { canon: "no-message".into(), outcome: "machinery:no-message".into(), ..Default::default() };
         };
         let msg = pm.to_message();
+        let inbox = Arc::new(Inbox::default());
+        let dmq_consumer = Arc::new(mithril_aggregator::services::SignatureConsumerDmq::new(Arc::new(
+            mithril_dmq::DmqConsumerClientDeduplicator::new_with_default_ttl(
+                inbox.clone(),
+                Arc::new(mithril_dmq::test::double::FakeUnixTimestampProvider::new(1_700_000_000)),
+            ),
+        )));
+        let mut dedup_dropped: BTreeMap<usize, usize> = BTreeMap::new();
         let mut accepted: Vec<Accepted> = vec![];
         let mut honest_accepted: BTreeSet<usize> = BTreeSet::new();
         let mut answers = vec![];
@@ -239,6 +264,28 @@ fn replay_inner(scratch: &std::path::Path, start: Start, subs: &[Sub]) -> RunRes
                     let (_tx, rx) = tokio::sync::watch::channel(());
                     let p = SequentialSignatureProcessor::new(
                         consumer,
+                        w.deps.certifier_service.clone(),
+                        rx,
+                        w.metrics.clone(),
+                        std::time::Duration::from_millis(1),
+                        crate::world::logger(),
+                    );
+                    match p.process_signatures().await {
+                        Ok(()) => "queue-ok".to_string(),
+                        Err(_) => "queue-error".to_string(),
+                    }
+                }
+                Route::QueueDedup => {
+                    inbox.0.lock().await.push((
+                        mithril_common::messages::RegisterSignatureMessageDmq {
+                            signed_entity_type: mithril_common::messages::SignedEntityTypeMessage::Known(entity.clone()),
+                            signature: sig.signature.clone(),
+                        },
+                        sig.party_id.clone(),
+                    ));
+                    let (_tx, rx) = tokio::sync::watch::channel(());
+                    let p = SequentialSignatureProcessor::new(
+                        dmq_consumer.clone(),
                         w.deps.certifier_service.clone(),
                         rx,
                         w.metrics.clone(),
@@ -271,6 +318,13 @@ fn replay_inner(scratch: &std::path::Path, start: Start, subs: &[Sub]) -> RunRes
             }
             answers.push(answer);
             check_rows(&w, &entity, epoch, &msg, &honest_accepted, &mut violations, &ctx).await;
+            // an honest publication made after the SAME payload had been published by another party
+            // (refused for that party): the deduplicator remembers payloads only
+            if s.route == Route::QueueDedup && s.by == s.label {
+                if let Some(copycat) = subs[..n].iter().find(|e| e.route == Route::QueueDedup && e.by == s.by && e.label != s.by && e.idx == s.idx) {
+                    dedup_dropped.insert(s.by, copycat.label);
+                }
+            }
         }
         // seal: cycles until the certificate is produced (or not)
         let mut rows_seen = 0;
@@ -296,6 +350,18 @@ fn replay_inner(scratch: &std::path::Path, start: Start, subs: &[Sub]) -> RunRes
                             what: format!("certificate {} names party #{p} ({}) among its signers, but no signature made with that party's registered key was stored", c.hash, named.party_id),
                             replay: ctx.clone(),
                         });
+                    }
+                }
+            }
+        }
+        for v in violations.iter_mut() {
+            if v.key == "C16/honest-contribution-disappeared" {
+                for (h, copycat) in &dedup_dropped {
+                    if v.what.starts_with(&format!("party #{h} ")) {
+                        v.key = "C16/honest-contribution-dropped-by-message-queue-deduplicator".into();
+                        v.what = format!(
+                            "party #{h} published its own valid signature on the message queue after party #{copycat} had published a copy of the same payload (refused for that party): DmqConsumerClientDeduplicator keys its seen-cache on the payload only and drops the honest publication (for its 30 min TTL); the store holds no signature of party #{h}"
+                        );
                     }
                 }
             }
@@ -463,6 +529,20 @@ pub fn run(ctx: &Ctx) -> ! {
         }
     }
     rep.extra("histories_in_the_nested_party_id_world", json!(nested));
+    // the message queue as wired (real deduplicator): all sequences of <= 2 publications over
+    // (publisher, whose key signed), from both prepared states
+    let dq: Vec<Sub> = (0..3).flat_map(|by| (0..3).map(move |label| Sub { by, label, idx: Idx::AsSigned, route: Route::QueueDedup })).collect();
+    let mut dedup_histories = 0u64;
+    for start in [Start::Open, Start::NotYetOpen] {
+        for s in sequences(dq.len(), 2) {
+            if s.is_empty() {
+                continue;
+            }
+            jobs.push((start, s.iter().map(|i| dq[*i]).collect()));
+            dedup_histories += 1;
+        }
+    }
+    rep.extra("histories_through_the_real_message_queue_deduplicator", json!(dedup_histories));
     rep.extra("alphabet", json!(alpha.len()));
     rep.extra("alphabet_when_next_signer_set_differs", json!(alpha2.len()));
     rep.extra("max_sequence_length", json!(len));
